@@ -37,7 +37,9 @@ def main():
             if f.endswith(".go"):
                 rel = os.path.relpath(os.path.join(d, f), shimroot)
                 rep[os.path.join(REPO, "verifshim", rel)] = os.path.join(d, f)
-    for pkg in shims:
+    for spec in shims:
+        pkg, _, what = spec.partition(":")
+        what = set(what.split(",")) if what else {"sync", "atomic"}
         src = os.path.join(REPO, pkg)
         dst = os.path.join(out, "shimmed", pkg)
         os.makedirs(dst, exist_ok=True)
@@ -45,7 +47,7 @@ def main():
             if not f.endswith(".go") or f.endswith("_test.go"):
                 continue
             s = open(os.path.join(src, f)).read()
-            s2 = rewrite(s)
+            s2 = rewrite(s, what)
             if s2 != s:
                 p = os.path.join(dst, f)
                 open(p, "w").write(s2)
@@ -53,9 +55,13 @@ def main():
     with open(os.path.join(out, "overlay.json"), "w") as fh:
         json.dump({"Replace": rep}, fh, indent=1)
 
-def rewrite(s):
-    s = re.sub(r'(?m)^(\s*)"sync"$', r'\1sync "%s/verifshim/vsync"' % MOD, s)
-    s = re.sub(r'(?m)^(\s*)"sync/atomic"$', r'\1atomic "%s/verifshim/vatomic"' % MOD, s)
+def rewrite(s, what):
+    if "sync" in what:
+        s = re.sub(r'(?m)^(\s*)"sync"$', r'\1sync "%s/verifshim/vsync"' % MOD, s)
+    if "atomic" in what:
+        s = re.sub(r'(?m)^(\s*)"sync/atomic"$', r'\1atomic "%s/verifshim/vatomic"' % MOD, s)
+    if "os" in what:
+        s = re.sub(r'(?m)^(\s*)"os"$', r'\1os "%s/verifshim/vos"' % MOD, s)
     return s
 
 main()
